@@ -419,7 +419,55 @@ func SafeCheck[C any](s *Sub[C], c C) (err error) {
 			err = fmt.Errorf("panic: %v\n%s", r, trimStack(debug.Stack()))
 		}
 	}()
+	limit := caseDeadline()
+	disarm := watchCase(limit, func() {
+		AbortCase(s, c, Errf("the case did not return within %v (cases of this sub-check take milliseconds to seconds): the code under test does not terminate on it, or takes orders of magnitude longer than on its neighbours", limit))
+	})
+	defer disarm()
 	return s.Check(c)
+}
+
+// A case that does not come back is a result too: the watchdog below turns it into a replay file and a failed
+// process after VERIF_CASE_DEADLINE seconds (default 300 - two to five orders of magnitude above what a case takes, so
+// that a loaded machine cannot trip it), instead of letting the whole sub-check run into the test binary's time limit.
+var watchdog struct {
+	once  sync.Once
+	mu    sync.Mutex
+	start time.Time
+	limit time.Duration
+	abort func()
+}
+
+func caseDeadline() time.Duration {
+	return time.Duration(envInt("VERIF_CASE_DEADLINE", 300)) * time.Second
+}
+
+func watchCase(limit time.Duration, abort func()) (disarm func()) {
+	watchdog.once.Do(func() {
+		go func() {
+			for {
+				time.Sleep(time.Second)
+				watchdog.mu.Lock()
+				f := watchdog.abort
+				late := f != nil && time.Since(watchdog.start) > watchdog.limit
+				if late {
+					watchdog.abort = nil
+				}
+				watchdog.mu.Unlock()
+				if late {
+					f() // writes the replay file and exits the process
+				}
+			}
+		}()
+	})
+	watchdog.mu.Lock()
+	watchdog.start, watchdog.limit, watchdog.abort = time.Now(), limit, abort
+	watchdog.mu.Unlock()
+	return func() {
+		watchdog.mu.Lock()
+		watchdog.abort = nil
+		watchdog.mu.Unlock()
+	}
 }
 
 func trimStack(b []byte) string {
